@@ -514,19 +514,21 @@ fn check_completed_step(
             ),
         ));
     }
-    // 2b. the same data kept as a hash set of the library's own payload values
-    //     (relying on their Eq/Hash) must agree
-    let shadow = t.shadow_as_dataset();
-    if shadow != t.data {
-        let odd: Vec<_> = shadow.iter().filter(|(k, v)| t.data.get(*k) != Some(*v)).take(3).collect();
+    // 2b. the same data kept as a hash set of the library's own payload values:
+    //     whenever an item was looked up, "an equal element exists" (Eq) and
+    //     "the hash lookup finds it" must have agreed - otherwise a target built
+    //     on HashSet<Payload> silently keeps or drops items. (Whether two
+    //     spellings of an origin are equal is the library's business; only a
+    //     disagreement between Eq and Hash is flagged.)
+    if let Some(what) = &t.identity_law_broken {
         return Err(Violation::new(
             "payload-identity",
             "",
-            format!(
-                "{}: a target that keeps the items in a HashSet<Payload> ends up with {} items where applying the same announcements and withdrawals by value gives {}; e.g. {:?} (Eq/Hash of the payload types disagree with their fields)",
-                who, shadow.len(), t.data.len(), odd
-            ),
+            format!("{}: Eq and Hash of the payload types disagree: {}", who, what),
         ));
+    }
+    if t.shadow_as_dataset() != t.data {
+        sh.bump("probe_hashset_target_differs_from_value_model");
     }
     // 3. exactness of diffs: probes only
     if applied.duplicate_announce > 0 {
